@@ -156,6 +156,11 @@ impl<'a> DDNNFPtr for BddPtr<'a> {
 
 //%% extract src/repr/bdd.rs :: impl<'a> DDNNFPtr<'a> for BddPtr<'a> :: fn neg
 //%% end
+
+    // A-count: `count_nodes` walks the diagram marking nodes through the scratch fields deleted by R-scratch; it is
+    // left unverified (a number used only as a heap priority) and nothing is assumed about the number it returns.
+    #[verifier::external_body]
+    fn count_nodes(&self) -> (n: usize) { unimplemented!() }
 }
 
 impl<'a> BddNode<'a> {
